@@ -805,9 +805,17 @@ class SliceIndexer(ShapedSliceIndexer):
         if slc.stop is None and slc.step < 0:  # special backwards indexing case
             self._shaped_inst = \
                 ShapedSliceIndexer(slc)
-        elif (slc.start is not None and slc.start < 0) or slc.stop is None or slc.stop < 0:
-            self._shaped_inst = \
-                ShapedSliceIndexer(slice(*self._slice.indices(self._src_shape[0])))
+        elif ((slc.start is not None and slc.start < 0) or (slc.start is None and slc.step < 0) or
+              slc.stop is None or slc.stop < 0):
+            start, stop, step = slc.indices(self._src_shape[0])
+            if step < 0:
+                # slice.indices reports 'before the first entry' as -1, which a slice would read
+                # as the last entry
+                if start < 0:
+                    start = stop = 0  # nothing is selected
+                elif stop < 0:
+                    stop = None
+            self._shaped_inst = ShapedSliceIndexer(slice(start, stop, step))
         else:
             self._shaped_inst = ShapedSliceIndexer(slc)
 
@@ -1440,7 +1448,7 @@ class EllipsisIndexer(Indexer):
             else:
                 lst[i] = ind
                 i += 1
-        if len(lst) == 1:
+        if len(lst) == 1 and not (isinstance(lst[0], np.ndarray) and lst[0].ndim > 1):
             idxer = indexer(lst[0])
         else:
             idxer = indexer(tuple(lst))
